@@ -32,9 +32,9 @@ CHECKS = {
   technique="deterministic simulation: seeded demand schedules and cut-off faults over the lazy result graph, exactly-once oracle over the recorded trace history",
   design="§5.1"),
 "C04": dict(
-  text="Seeded exploration (deterministic simulation), scoped to the clauses of C04 that quantify over crash points, histories and configurations: (ii) frame-limit cut-off swept over every depth of depth-parametric templates (value or StackOverflow, monotone, shallow recursion fits the defaults, quiescent interpreter state after every cut-off), (iii) self-dependence reported as infinite recursion, (iv) after any history of failing evaluations the same thread and states evaluate a canary normally, and the process-level half of (i): the jrsonnet executable, supervised as a child across --max-stack/--os-stack settings, never dies by signal, abort or hang on runaway recursion, deep legal recursion or deeply nested source. A clean batch is evidence, not proof.",
-  note="NOT decided: clause (i) over arbitrary source text and arbitrary std arguments (a statement about inputs, outside this technique). Trusted: closed forms of the templates; the dev-profile executable stands for the shipped one (release has panic=abort and smaller frames). Known findings F10 (deeply nested source overflows the native stack) and F12 (recursive Drop of long value chains) are matched by family and depth only.",
-  technique="deterministic simulation: crash-point (frame-limit) sweep, seeded error histories on one thread, supervised child processes across stack configurations",
+  text="Seeded exploration (deterministic simulation), scoped to the clauses of C04 that quantify over crash points, histories and configurations: (ii) frame-limit cut-off swept over every depth of depth-parametric templates (value or StackOverflow, monotone, shallow recursion fits the defaults, quiescent interpreter state after every cut-off), (iii) self-dependence reported as infinite recursion, (iv) after any history of failing evaluations the same thread and states evaluate a canary normally, and the process-level half of (i): the jrsonnet executable, supervised as a child across --max-stack/--os-stack settings, never dies by signal, abort or hang on runaway recursion, deep legal recursion or deeply nested source; plus sequences of standard-library calls, operators, index and slice expressions on boundary-heavy argument tuples (empty, huge, negative, fractional, wrong type, non-ASCII; c04_stdedge) on one thread and state, each ending in a value or a Jsonnet error and leaving the thread usable. A clean batch is evidence, not proof.",
+  note="NOT decided: clause (i) over arbitrary source text (a statement about inputs, outside this technique); std arguments are sampled from fixed boundary pools per parameter kind, not enumerated, and sizes that would honestly need gigabytes are kept small. Trusted: closed forms of the templates; the dev-profile executable stands for the shipped one (release has panic=abort and smaller frames). Known findings F10 (deeply nested source overflows the native stack) and F12 (recursive Drop of long value chains) are matched by family and depth only.",
+  technique="deterministic simulation: crash-point (frame-limit) sweep, seeded error histories and boundary-argument call sequences on one thread, supervised child processes across stack configurations",
   design="§5.2"),
 "C18": dict(
   text="Seeded exploration (deterministic simulation): (a) histories of evaluations (succeeding, failing, cut off by a frame limit; results kept alive across state drops; random drop order) executed twice on one thread, with the collector's tracked-object count and the interner pool size compared between the two teardowns; the C07/C16 fault plans are re-run under the same teardown oracle; (b) interner operation histories (intern, clone, drop, cast both ways, context hand-over between real OS threads released one at a time by the simulator) checked after every step against a multiset model; in the thorough tier the same interpreter runs under Miri (undefined behaviour, leaks, data races). A clean batch is evidence, not proof.",
